@@ -824,7 +824,9 @@ class AsyncFIXConnection:
             elif msg.msg_type == FMsg.HEARTBEAT:
                 await self._process_heartbeat(msg)
             else:
-                if is_valid_msg_num:
+                if is_valid_msg_num and msg_seq_num == self._session.next_num_in:
+                    # a frame numbered below the expected number (tolerated while a resend
+                    # is awaited) was delivered before: never hand it to the application again
                     await self.on_message(msg)
                 else:
                     self.log.debug(f"_process_message: skipped app msg: {msg}")
